@@ -114,6 +114,17 @@ CHECKS.update({
     ),
 })
 
+CHECKS.update({
+    "C11": dict(
+        engine="E3 CrossHair",
+        cat="other",
+        text="CrossHair executes the real BackendRegistryState (_get, _get_by_name, _get_by_tensors, _register_on_import, _check_new_imports, _run_factory, _enter/_exit) on registries of synthetic Backend/InvalidBackend objects; priorities are symbolic unbounded integers (all values and ties) and the argument-type tuple is a symbolic selector; configurations, registration orders, lazy/eager registration with imported/not-imported modules, failing factories and one-step histories are enumerated one condition each. The result must equal a short specification transcribed from the documentation.",
+        note="Real framework imports are outside (not installed); sys.modules is stubbed by pre-seeding seen_module_names. 57 conditions (quick).",
+        tech="CrossHair symbolic execution of the real registry state machine against a specification function",
+        ref="DESIGN.md §3 C11",
+    ),
+})
+
 NOT_APPLICABLE = {
     "C17": "quantifies over all axis lengths and the syntactic form of generated text; stages 2-4 cannot run with symbolic sizes under any installed engine (sympy, numpy int32 casts), see DESIGN.md §3 C17",
 }
